@@ -660,7 +660,7 @@ func (s *Server) HonestDial(name string, opt ...nodeenrollment.Option) ([]Accept
 		select {
 		case d := <-ch:
 			// the server side of the last connection may finish slightly after the client
-			for {
+			for i := 0; i < 8; i++ { // bounded: once the accept loop has ended AcceptOne answers at once
 				r := s.AcceptOne(200 * time.Millisecond)
 				if r.Kind == "timeout" {
 					break
